@@ -8,10 +8,13 @@ if os.environ.get("PYTHONHASHSEED") is None:
     os.execv(sys.executable, [sys.executable] + sys.argv)
 
 HERE = os.path.dirname(os.path.dirname(os.path.abspath(__file__)))
-# the simulator always runs the current working tree of /repo
+# the simulator always runs the current working tree of /repo (VERIF_REPO is only for evaluating a
+# seeded change in a scratch worktree without touching /repo; the registered commands never set it)
+REPO = os.path.realpath(os.environ.get("VERIF_REPO", "/repo"))
+os.environ["VERIF_REPO"] = REPO
 sys.path[:] = [p for p in sys.path if os.path.abspath(p or ".") != os.path.join(HERE, "sim")]
 sys.path.insert(0, HERE)
-sys.path.insert(0, "/repo/src")
+sys.path.insert(0, os.path.join(REPO, "src"))
 sys.dont_write_bytecode = True
 os.environ.setdefault("WAITRESS_VERIF_SIM", "1")
 
